@@ -97,6 +97,9 @@ struct Case {
     /// picture starts with the CP437 characters EF BB BF on default colours, rest of the picture 7-bit
     bom: bool,
     rows: Vec<Row>,
+    /// storage-shape perturbation (icyv::shape), 0 = stored exactly as built
+    #[serde(default)]
+    shape: u8,
 }
 
 /// the grid actually saved: every row holds its significant cells (no trailing blank on black)
@@ -108,6 +111,7 @@ struct Norm {
     w: usize,
     rows: Vec<Vec<Cell>>,
     pad: Vec<bool>,
+    shape: u8,
 }
 
 const NEUTRAL: Cell = Cell(b'z', 7, 0);
@@ -210,7 +214,7 @@ fn normalize(c: &Case) -> Norm {
             r0[i] = Cell(*b, 7, 0);
         }
     }
-    let mut n = Norm { fmt, prep: c.prep % 3, alt: c.alt % 9, w, rows, pad };
+    let mut n = Norm { fmt, prep: c.prep % 3, alt: c.alt % 9, w, rows, pad, shape: c.shape % icyv::shape::CODES };
     tidy(&mut n);
     n
 }
@@ -297,7 +301,9 @@ fn roundtrip(n: &Norm) -> Outcome {
 
 fn roundtrip_inner(n: &Norm) -> Outcome {
     let ext = ext_of(n.fmt, n.alt);
-    let orig = build(n);
+    let mut orig = build(n);
+    // the same picture, stored the way an edited document may store it
+    icyv::shape::perturb(&mut orig, n.shape);
     let bytes = match orig.to_bytes(&ext, &save_options(n)) {
         Ok(b) => b,
         Err(e) => return Outcome::SaveError(e.to_string()),
@@ -396,6 +402,7 @@ fn failure(n: &Norm) -> Option<Failure> {
 /// one input feature that can be taken out of a normal form
 #[derive(Clone, Copy, Debug, PartialEq)]
 enum Step {
+    Shape,
     Prep,
     Bom,
     Pad,
@@ -415,7 +422,8 @@ enum Step {
 
 /// fixed order of the removals; content-deleting steps come first, character classes are mapped injectively onto plain
 /// letters (runs of equal cells stay runs), colours are taken out component by component, run structure last
-const STEPS: [Step; 15] = [
+const STEPS: [Step; 16] = [
+    Step::Shape,
     Step::Prep,
     Step::Bom,
     Step::MultiRow,
@@ -442,6 +450,7 @@ fn step_name(s: Step, n: &Norm) -> &'static str {
                 "prep_home"
             }
         }
+        Step::Shape => "storage_shape",
         Step::Bom => "utf8_bom_prefix",
         Step::Pad => "explicit_trailing_blanks",
         Step::FullWidthRow => "full_width_row",
@@ -514,6 +523,14 @@ fn squeeze_one(row: &mut Vec<Cell>, min_run: usize) -> bool {
 fn candidates(s: Step, n: &Norm, protect_bom: bool) -> Vec<Norm> {
     let one = |o: Option<Norm>| o.into_iter().collect::<Vec<_>>();
     match s {
+        Step::Shape => {
+            if n.shape == 0 {
+                return Vec::new();
+            }
+            let mut c = n.clone();
+            c.shape = 0;
+            vec![c]
+        }
         Step::Prep => {
             if n.prep == 0 {
                 return Vec::new();
@@ -848,7 +865,8 @@ fn cases(fmt: usize, steer_bom: bool) -> BoxedStrategy<Case> {
     // while the finding C15-cp437-content-starting-with-utf8-bom is open, its precondition is not generated (the witness keeps it)
     let bom = if (matches!(fmt, CTRLA | REN | ASC) && !steer_bom) || fmt == ATA { proptest::bool::weighted(0.01).boxed() } else { Just(false).boxed() };
     let alt = if fmt == REN { prop_oneof![3 => Just(0u8), 1 => 0u8..9].boxed() } else { Just(0u8).boxed() };
-    (0u8..3, alt, bom, rows(w, max_height(fmt))).prop_map(move |(prep, alt, bom, rows)| Case { fmt: fmt as u8, prep, alt, bom, rows }).boxed()
+    let shape = prop_oneof![3 => Just(0u8), 2 => 1u8..icyv::shape::CODES];
+    (0u8..3, alt, bom, rows(w, max_height(fmt)), shape).prop_map(move |(prep, alt, bom, rows, shape)| Case { fmt: fmt as u8, prep, alt, bom, rows, shape }).boxed()
 }
 
 fn minimize(c: &Case) -> Vec<Case> {
